@@ -77,16 +77,18 @@ def _execute_options(env, parent=None, usage='parse'):
     parser = ArgumentParser(prog=prog, parents=listify(parent), add_help=False)
 
     try:
-        with open(optspath.string(env.base_dirs), 'r') as f:
-            group = parser.add_argument_group('project-defined arguments',
-                                              description=user_description)
-            group.usage = usage
-
-            context = builtin.OptionsContext(env, group)
-            _execute_script(f, context, optspath)
-            return parser, context.seen_paths
+        f = open(optspath.string(env.base_dirs), 'r')
     except FileNotFoundError:
         return parser, []
+
+    with f:
+        group = parser.add_argument_group('project-defined arguments',
+                                          description=user_description)
+        group.usage = usage
+
+        context = builtin.OptionsContext(env, group)
+        _execute_script(f, context, optspath)
+        return parser, context.seen_paths
 
 
 def resolve_packages(env, files, flags):
